@@ -628,6 +628,7 @@ func runC01(c *Ctx) {
 	m.ruleReadOnly(c)
 	m.ruleTreeAccessors(c)
 	m.ruleExtremeLeaf(c)
+	m.ruleSuccessorLeaf(c)
 	ruleFractionRange(c)
 	var yf []*ssa.Function
 	ruleSizeGuard(c, "stree")
